@@ -53,6 +53,17 @@ class ToTZ(Op):
             u = p.to_utc()
             if T.canon_tp(u) != T.canon_tp(q):
                 extra += " TO_UTC-DIFFERS"
+        if p.hour_of_day < 24:
+            # Props/C06d on the implementation: identity on the own offset, there and back, and re-zoning
+            # through the requested offset to a third one (the own offset negated) against the direct route
+            own = p._time_zone
+            if T.canon_tp(p.to_time_zone(TimeZone(hours=own.hours, minutes=own.minutes))) != T.canon_tp(p):
+                extra += " OWN-OFFSET-NOT-IDENTITY"
+            if T.canon_tp(q.to_time_zone(TimeZone(hours=own.hours, minutes=own.minutes))) != T.canon_tp(p):
+                extra += " ROUND-TRIP-DIFFERS"
+            z3 = TimeZone(hours=-own.hours, minutes=-own.minutes)
+            if T.canon_tp(q.to_time_zone(z3)) != T.canon_tp(p.to_time_zone(z3)):
+                extra += " COMPOSE-DIFFERS"
         return T.canon_tp(q) + extra
 
     def oracle(self, a, out):
